@@ -32,6 +32,59 @@ type HistOpts struct {
 	// partition value, so files hold disjoint partitions and one Merge forms
 	// several merge groups.
 	GroupedParts bool
+	// MinMaxHeavy: every numeric pool field is a minmax key, rows always carry
+	// numbers there (small values so block ranges nest and overlap, plus the
+	// extreme classes), 3-8 small single-flush files over one or two
+	// partitions, then Merge: merged blocks whose range must be the hull of
+	// three or more source ranges. Queries are (mostly) prefilter-only.
+	MinMaxHeavy bool
+}
+
+func drawMinMaxHistory(t *rapid.T, o HistOpts) History {
+	spec := RowSpec{PartField: partFieldName, NumFields: nil}
+	h := History{Cfg: drawCfg(t, "default", numFieldPool, true), Meta: "mem", Data: "mem"}
+	h.Cfg.MinMax = append([]string(nil), numFieldPool...)
+	if chance(t, "onekey", 20) {
+		h.Cfg.MinMax = []string{pick(t, "thekey", numFieldPool)}
+	}
+	h.Cfg.Partition = pick(t, "mmpart", []string{"none", "const", "field", "field"})
+	h.Cfg.RGRows, h.Cfg.RGBytes = 10000, 10<<20
+	h.Cfg.BufRows, h.Cfg.BufBytes, h.Cfg.BufTimeMs = 1000, 1<<20, 0
+	h.Cfg.MaxFileSize = 10 << 30
+	h.Cfg.MaxMerge = pick(t, "mmmaxmerge", []int{10, 10, 4})
+	parts := []string{"p1", "p2"}
+	nfl := rapid.IntRange(3, 8).Draw(t, "nflushes")
+	for i := 0; i < nfl; i++ {
+		n := rapid.IntRange(1, 3).Draw(t, "nrows")
+		rows := make([]Val, 0, n)
+		for j := 0; j < n; j++ {
+			r := drawRow(t, spec)
+			ms := r.O
+			ms = setMember(ms, partFieldName, VStr(pick(t, "part", parts)))
+			for _, nf := range numFieldPool {
+				switch unif(t, "numf_"+nf, 12) {
+				case 0:
+					ms = delMember(ms, nf)
+				case 1, 2, 3:
+					ms = setMember(ms, nf, genMarshalableNum().Draw(t, "numv"))
+				case 4:
+					ms = setMember(ms, nf, VF64(float64(rapid.IntRange(-400, 600).Draw(t, "fnum")) / 4))
+				default:
+					ms = setMember(ms, nf, VInt(int64(rapid.IntRange(-50, 150).Draw(t, "small"))))
+				}
+			}
+			rows = append(rows, Val{K: "obj", O: ms})
+		}
+		h.Steps = append(h.Steps, Step{Op: "ingest", Rows: rows}, Step{Op: "flush"})
+		if i >= 2 && chance(t, "midmerge", 15) {
+			h.Steps = append(h.Steps, Step{Op: "merge"})
+		}
+	}
+	h.Steps = append(h.Steps, Step{Op: "merge"})
+	if chance(t, "secondmerge", 40) {
+		h.Steps = append(h.Steps, Step{Op: "merge"})
+	}
+	return h
 }
 
 // mergeFriendly rewrites a drawn configuration so blocks of different files
@@ -48,6 +101,9 @@ func mergeFriendly(t *rapid.T, c EngCfg) EngCfg {
 }
 
 func drawHistory(t *rapid.T, o HistOpts) History {
+	if o.MinMaxHeavy {
+		return drawMinMaxHistory(t, o)
+	}
 	tokenizer := rapid.SampledFrom(tokenizerNames).Draw(t, "tokenizer")
 	lowFPR := o.LowFPR || rapid.Bool().Draw(t, "lowfpr")
 	spec := RowSpec{PartField: partFieldName, NumFields: numFieldPool, TopEmpty: chance(t, "topempty", 5)}
